@@ -260,10 +260,23 @@ fn run(c: &mut Case) {
                 // (when the parse without closing ends in an error — e.g. a buffered master cut short by the end of input —
                 // the final None is never reached and there is nothing to finalize)
                 let finalize = finalize && base_noclose.end == Ev::None;
-                let base_noclose = if finalize { &base } else { &base_noclose };
+                // A finalized run is compared up to the point where closing was switched on (that prefix must be the
+                // no-closing baseline); what follows is recorded only: switching a setter after the final None is not
+                // covered by the statement (a reader may stay fused, as C05's wording suggests, or emit the closing Ends).
+                let mut var = var;
                 if finalize {
                     c.count("pause_runs_finalized");
+                    let n = base_noclose.items.len().min(var.items.len());
+                    if var.items.len() > n && var.items[..n] == base_noclose.items[..] && var.end == Ev::None {
+                        if var.items[..] == base.items[..] {
+                            c.count("finalized_runs_equal_to_the_closing_baseline");
+                        } else {
+                            c.count("finalized_runs_with_other_closing_items");
+                        }
+                        var.items.truncate(n);
+                    }
                 }
+                let base_noclose = &base_noclose;
                 if var.items != base_noclose.items || var.end != base_noclose.end {
                     let msg = diff_msg(base_noclose, &var);
                     // narrow class of the known limitation: a pause while a buffered (Full) master is being collected
